@@ -671,3 +671,12 @@ Lemma unfixed_conn_reset_leaks_proof :
 Proof.
   exists [CNew; CConnect 0; CAddHandler 0 true; CDisconnect 0; CRelease 0]. eexists. vm_compute. repeat split; reflexivity.
 Qed.
+
+(* the hand-over of an SM state between two connection objects, everything released at the end *)
+Definition example_handover : list cop :=
+  [CNew; CConnect 0; CSend 0; CWritten 0; CSend 0; CAddHandler 0 true; CDisconnect 0; CGetSm 0;
+   CNew; CSetSm 1 0; CClone 1; CRelease 0; CConnect 1; CAck 1; CRelease 1; CRelease 1].
+Example example_handover_ok :
+  exists w, snd (crun true example_handover) = Some w /\ w_user_conn w = [] /\ w_user_sm w = [] /\ clive w = 0 /\
+            ~ In CBad (fst (crun true example_handover)).
+Proof. vm_compute. eexists. repeat split; try reflexivity. intuition discriminate. Qed.
